@@ -679,6 +679,39 @@ def run(tier, seed):
             if check_block(G, blk, t, inp) and blk.bar_pitches() != [[pitches]]:
                 R.fail(G, CR, "notes %r read back as %r:\n%s" % (pitches, blk.bar_pitches(), txt), inp)
 
+    # --- 6c. the SAME container rendered again under another tuning: a rendering must not depend on an earlier one
+    #         (e.g. through positions remembered on the notes) nor change its argument
+    G = "tablature.from_NoteContainer (same notes, second tuning)"
+    pairs = [(a, b) for a in plain[:6] for b in plain if b is not a and len(opens_of(b)) < len(opens_of(a))][: (12 if quick else 60)]
+    for pi, (ta, tb) in enumerate(pairs):
+        oa, ob = opens_of(ta), opens_of(tb)
+        for j in range(6 if quick else 40):
+            k = rnd.choice([1, 2, 2, 3])
+            pitches = sorted(set(playable_set(oa, k)))
+            if not has_fingering(oa, pitches):
+                continue
+            arg = NoteContainer([_spell(p) for p in pitches])
+            before = [(n.name, n.octave, getattr(n, "string", None), getattr(n, "fret", None)) for n in arg]
+            inp = (tname(ta), tname(tb), pitches)
+            R.case(G, (pi, tuple(pitches)))
+            txt1 = render(G, ta, inp, lambda: tab.from_NoteContainer(arg, tuning=ta), False)
+            if txt1 is None:
+                continue
+            after = [(n.name, n.octave, getattr(n, "string", None), getattr(n, "fret", None)) for n in arg]
+            if after != before:
+                R.fail(G, CR, "rendering changed its argument's notes from %r to %r" % (before, after), inp)
+            poss = has_fingering(ob, pitches)
+            txt = render(G, tb, inp, lambda: tab.from_NoteContainer(arg, tuning=tb), not poss)
+            if txt is None:
+                continue
+            systems = tabreader.read(txt)
+            if len(systems) != 1 or len(systems[0]) != 1:
+                R.fail(G, CL, "not a single block of string lines:\n%s" % txt, inp)
+                continue
+            blk = systems[0][0]
+            if check_block(G, blk, tb, inp) and blk.bar_pitches() != [[pitches]]:
+                R.fail(G, CR, "second rendering: notes %r read back as %r:\n%s" % (pitches, blk.bar_pitches(), txt), inp)
+
     # --- bars
     from mingus.core import value as core_value
     durations = [1, 2, 4, 4, 4, 8, 8, 8, 16, 16, 32, core_value.dots(4), core_value.dots(8), core_value.dots(2),
